@@ -6,7 +6,7 @@ from mkprops import write
 IMP = """From Coq Require Import List Arith Bool NArith.
 From FFSM2 Require Import Model.TaskList Model.BitArray Model.BitStream Model.Plan Model.Ancestors Model.Machine
   Proofs.BitArrayProofs Proofs.MachineFrame Proofs.MachinePlan Proofs.MachineLife Proofs.GuardProofs Proofs.CycleProofs Proofs.PlanStep
-  Proofs.SerialProofs Proofs.LogProofs Proofs.MachineTop Model.Multi Generated.InitFacts Proofs.ConstructProofs Proofs.LifeMonitor Proofs.ActivationRounds Proofs.IndexSafety.
+  Proofs.SerialProofs Proofs.LogProofs Proofs.MachineTop Model.Multi Generated.InitFacts Proofs.ConstructProofs Proofs.LifeMonitor Proofs.ActivationRounds Proofs.IndexSafety Proofs.FeatureProofs.
 Import ListNotations."""
 
 VOC = ("Vocabulary: Ready cfg s a = the machine is at a point where requests are processed (or between API calls) with state a < n active, "
@@ -189,7 +189,16 @@ SPECS.update({
 })
 
 SPECS.update({
- "C19": ("C19 - Feature switches are orthogonal: the Coq part (non-interference of features a program does not use). with_log/with_plans/with_serial/with_history cfg x = the configuration with that switch set to x. 'Every combination compiles' and 'the shipped header equals the amalgamation' are decided by enumeration and byte comparison in the check, not here. ", [
+ "C19": ("C19 - Feature switches are orthogonal: the Coq part (non-interference of features a program does not use). with_log/with_plans/with_serial/with_history cfg x = the configuration with that switch set to x; with_features sets all four; strip forgets the logger and its records, strip_h forgets previousTransition(); a program 'does not use' plans when its callbacks issue no succeed/fail/plan action (no_plan_oracle) and its history has no plan operation (no_plan_op), and 'does not use' transition history when it calls neither replayEnter nor replayTransition. 'Every combination compiles' and 'the shipped header equals the amalgamation' are decided by enumeration and byte comparison in the check, not here. ", [
+   ("C19_all_four_switches", "features_irrelevant", "for every history that uses none of the features and every two settings of (plans, serialization, history, log mode, logger): same returns, and the same run once logger records and previousTransition() are forgotten"),
+   ("C19_all_four_switches_observable", "features_irrelevant_observable", "in particular: same callbacks/actions/results in the same order, same active state, request and plan"),
+   ("C19_features_against_the_bare_machine", "features_transparent", ""),
+   ("C19_serialization_is_inert", "serial_run", "the serialization switch changes nothing but the availability of save/load"),
+   ("C19_serialization_observe", "serial_observe", ""),
+   ("C19_history_is_write_only", "history_run_on_off", "transition history is write-only for programs that do not replay"),
+   ("C19_history_returns", "history_run_rets_on_off", ""),
+   ("C19_plans_idle", "plans_run", "with plans compiled in but unused the run is identical and the plan data stays as constructed"),
+   ("C19_plans_from_any_idle_state", "plans_run_from_idle", ""),
    ("C19_logging_does_not_interfere", "log_transparent_gen", "for every history and every pair of log modes: forgetting the logger's records, the run with a logger equals the run without"),
    ("C19_log_mode_irrelevant_without_logger", "run_log_mode_irrelevant", "with no logger attached the compile-time log mode is unobservable"),
  ]),
